@@ -489,6 +489,9 @@ pub fn run_c19(tier: Tier) -> i32 {
         }
     };
     c19_rec(deserr::ValuePointerRef::Origin, &mut vec![], max, &alphabet, &mut check);
+    // awkward steps: empty key, keys with path syntax in them, non-ASCII, huge index
+    let odd = vec![Step::Key(String::new()), Step::Key("a.b[0]".into()), Step::Key("é".into()), Step::Index(usize::MAX)];
+    c19_rec(deserr::ValuePointerRef::Origin, &mut vec![], 4, &odd, &mut check);
     let exhaustive_n = n.get();
     // longer paths: the lexicographically first 2000 paths of each length 7..=12, with distinct keys
     let long_alpha = vec![Step::Key("k1".into()), Step::Index(7), Step::Key("k2".into()), Step::Index(0)];
@@ -521,7 +524,7 @@ pub fn run_c19(tier: Tier) -> i32 {
     rec.sample(json!({"path": ".a[0].b", "to_owned": format!("{:?}", deserr::ValuePointerRef::Origin.push_key("a").push_index(0).push_key("b").to_owned().path)}));
     rec.finish(
         "model_checking",
-        "complete enumeration of every path of ≤ 6 (quick) / ≤ 9 (thorough) steps over {key a, key b, index 0, index 1}, built as real ValuePointerRef chains by recursion, plus the first 2000 paths of each of the next six lengths over a second alphabet. Oracle: to_owned().path lists exactly the pushed steps in order; is_origin ⇔ no step; first_field / last_field = first / last key step or None.",
+        "complete enumeration of every path of ≤ 6 (quick) / ≤ 9 (thorough) steps over {key a, key b, index 0, index 1}, built as real ValuePointerRef chains by recursion, every path of ≤ 4 steps over {empty key, key `a.b[0]`, key `é`, index usize::MAX}, plus the first 2000 paths of each of the next six lengths over a second alphabet. Oracle: to_owned().path lists exactly the pushed steps in order; is_origin ⇔ no step; first_field / last_field = first / last key step or None.",
         &["ValuePointerComponent is not exported by deserr, so the owned path is compared through its Debug rendering"],
     )
 }
@@ -781,8 +784,32 @@ pub fn run_c13(tier: Tier) -> i32 {
             });
         }
     });
+    // large documents: long arrays / wide objects / long strings round-trip unchanged too
+    let mut large = 0u64;
+    for n in [100usize, 4095, 4096, 4097, 65_537] {
+        let arr = format!("[{}]", (0..n).map(|i| format!("{}", i as i64 - 7)).collect::<Vec<_>>().join(","));
+        let obj = format!("{{{}}}", (0..n).map(|i| format!("\"k{i}\":{i}.5")).collect::<Vec<_>>().join(","));
+        let st = format!("\"{}\"", "é😀a".repeat(n));
+        for text in [arr, obj, st] {
+            let v: serde_json::Value = serde_json::from_str(&text).unwrap();
+            begin(&Script::keep_going());
+            let back = deserr::deserialize::<serde_json::Value, serde_json::Value, RecA>(v.clone());
+            let _ = end();
+            let rt = serde_json::Value::from(v.clone().into_value());
+            large += 1;
+            if back.as_ref().ok() != Some(&v) || rt != v {
+                rec.violation(Violation {
+                    property: "C13".into(),
+                    subject: "large document".into(),
+                    message: format!("a document of {n} elements / members / repetitions does not round-trip (text starts {:?})", &text[..40.min(text.len())]),
+                    replay: json!({"kind": "c13-large", "n": n}),
+                });
+            }
+        }
+    }
+    rec.set_extra("large_documents", json!(large));
     let o = outcomes.into_inner().unwrap();
-    rec.add_counts(texts.len() as u64, evals.load(Ordering::Relaxed) as u64, evals.load(Ordering::Relaxed) as u64);
+    rec.add_counts(texts.len() as u64 + large, evals.load(Ordering::Relaxed) as u64, evals.load(Ordering::Relaxed) as u64);
     rec.add_signatures(&o, &o);
     rec.set_extra("max_nodes", json!(max_nodes));
     rec.set_extra("leaf_literals", json!(C13_LEAVES));
